@@ -8,7 +8,7 @@
    the remaining operations are tied by the correspondence run (three-way with std::vec::Vec) only. *)
 From Coq Require Import ZArith List Bool Lia Permutation.
 From MV Require Import Ast Eval Scalar Machine Model Policy.
-From MV.Proofs Require Import Arith Logic Prim View OpsLocal Guards Grow CapHistory Drops DrainIt Core Refine Clone Append SplitOff Extend CloneSlice RetainSpec RetainAbs History.
+From MV.Proofs Require Import Arith Logic Prim View OpsLocal Guards Grow CapHistory Drops DrainIt Core Refine Clone Append SplitOff Extend CloneSlice RetainSpec RetainAbs History DrainAbs.
 Import ListNotations.
 Open Scope Z_scope.
 
@@ -296,3 +296,24 @@ Theorem C01_histories_with_retain_and_extend_refine_the_list_model :
 Proof. exact history_refines_list_spec_bulk. Qed.
 Print Assumptions C01_histories_with_retain_and_extend_refine_the_list_model.
 (* (the premise vacc is satisfiable: C01_new_vector_is_the_empty_list above) *)
+
+(* drain(range) end to end against the list model: create the Drain over l[a..e), step it from either
+   end in ANY interleaving of ANY length, the caller takes what was yielded, drop the iterator with
+   ANY set of panicking destructors.  The yielded sequence is that of the double-ended cursor over
+   l[a..e) (`cursor`, Proofs/DrainIt.v); afterwards the vector is l[..a) ++ l[e..) -- on the normal
+   and on the panicking exit. *)
+Theorem C01_drain_is_the_list_drain :
+  forall cfg ncap, cfg_ok cfg -> needs_drop cfg = true ->
+  forall s v b bl bs be a e steps tmp,
+  vec_at s v b bl -> block_ok cfg bl -> owned s bl ->
+  resolve_pure bs be (h_len bl) = Some (a, e) -> 0 <= a ->
+  let l := velems bl in
+  let w := skipn (Z.to_nat a) (firstn (Z.to_nat e) l) in
+  let Q := fun s' =>
+    vabs cfg s' v (firstn (Z.to_nat a) l ++ skipn (Z.to_nat e) l) /\
+    (forall x, In x (somes (fst (cursor w steps))) -> ledger s' x = Out) /\
+    (forall x, In x (snd (cursor w steps)) -> ledger s' x = Dropped) /\
+    (forall x, ~ In x w -> ledger s' x = ledger s x) /\ next_elem s' = next_elem s in
+  post (drain_whole cfg ncap v bs be steps tmp s) (fun r s' => r = fst (cursor w steps) /\ Q s') Q.
+Proof. exact drain_abs. Qed.
+Print Assumptions C01_drain_is_the_list_drain.
